@@ -1,10 +1,119 @@
-(** * Props/C09 — validation admits only safe modules; parsing and validation are total. *)
+(** * Props/C09 — validation admits only safe modules; parsing and validation are total.
+
+    Models: [Wasm/Validate.v] (transcription of validate.rs: function level and module level),
+    [Wasm/Leb128.v] (the LEB128 readers of parse.rs), [Wasm/Typing.v] (the declarative typing of
+    the WebAssembly specification), [Gen/Limits.v] (generated from constants.rs on every run). *)
 From Coq Require Import ZArith NArith List Bool.
-From CB Require Import Common.IntN Wasm.Syntax Gen.Limits Wasm.Validate Wasm.ValidateLimits.
+From CB Require Import Common.IntN Wasm.Syntax Gen.Limits Wasm.Validate Wasm.ValidateLimits
+  Wasm.Typing Wasm.ValidateProofs Wasm.Leb128 Wasm.Leb128Proofs.
 Import ListNotations.
 
-(** Accepted modules obey every limit of constants.rs (generated into Gen/Limits.v on every run). *)
+(** Validation is a total function: structural recursion over the opcode list, no fuel. *)
+Theorem validate_total :
+  forall c ops, {h | validate_func c ops = Some h} + {validate_func c ops = None}.
+Proof. intros c ops. destruct (validate_func c ops) as [h|]; [left; exists h; reflexivity|right; reflexivity]. Qed.
+Print Assumptions validate_total.
+
+(** Soundness of the validation algorithm (operand stack with unknown types, control frames):
+    an accepted function body that does not continue after the [end] closing the function is a
+    well-nested expression, well typed by the specification's rules in the function's context. *)
+Theorem validate_sound :
+  forall c ops h,
+    validate_func c ops = Some h -> ends_early c ops = false ->
+    exists is, structure_body (map fst ops) = Some is /\ body_ok (tctx_of c) is.
+Proof. exact validate_sound_thm. Qed.
+Print Assumptions validate_sound.
+
+(** The unguarded statement is false for the faithful model, as for the implementation
+    (finding KF-C09-1): the body [end; nop] is accepted but is not an expression. *)
+Theorem validate_sound_refuted :
+  exists c ops h, validate_func c ops = Some h /\ structure_body (map fst ops) = None /\ ends_early c ops = true.
+Proof. exact validate_sound_refuted_thm. Qed.
+Print Assumptions validate_sound_refuted.
+
+Example validate_sound_hypotheses_satisfiable :
+  validate_func ex_ctx ex_body = Some 1%nat /\ ends_early ex_ctx ex_body = false.
+Proof. exact validate_sound_nonvacuous. Qed.
+Print Assumptions validate_sound_hypotheses_satisfiable.
+
+(** Every memory instruction of an accepted body has at most the natural alignment. *)
+Theorem validate_alignment_ok :
+  forall c ops h, validate_func c ops = Some h -> forallb vop_align_ok ops = true.
+Proof. exact validate_alignment. Qed.
+Print Assumptions validate_alignment_ok.
+
+(** Module level: every function of an accepted module has an existing type, at most
+    ALLOWED_LOCALS locals, locals + maximal operand stack height within MAX_ALLOWED_STACK_HEIGHT,
+    naturally aligned accesses, and (outside KF-C09-1) a well-typed body. *)
+Theorem validate_module_sound :
+  forall signext m, validate_module signext m = true ->
+  forall f, In f (vm_funcs m) ->
+  exists ft locals h,
+    nth_error (vm_types m) (mf_type f) = Some ft /\
+    make_locals (ft_params ft) (mf_locals f) = Some locals /\
+    validate_func (func_ctx signext m ft locals) (mf_body f) = Some h /\
+    (N.of_nat (length locals) + N.of_nat h <= MAX_ALLOWED_STACK_HEIGHT)%N /\
+    forallb vop_align_ok (mf_body f) = true /\
+    (ends_early (func_ctx signext m ft locals) (mf_body f) = false ->
+     exists is, structure_body (map fst (mf_body f)) = Some is /\
+                body_ok (tctx_of (func_ctx signext m ft locals)) is).
+Proof. exact validate_module_sound_thm. Qed.
+Print Assumptions validate_module_sound.
+
+(** Accepted modules obey every limit of constants.rs (table and memory sizes, globals, exports,
+    element and data segments inside the table / initial memory, locals and stack height). *)
 Theorem validate_module_limits :
   forall signext m, validate_module signext m = true -> module_limits m.
 Proof. exact validate_module_limits_thm. Qed.
 Print Assumptions validate_module_limits.
+
+(** The switch size limit is enforced on every accepted br_table. *)
+Theorem validate_switch_size :
+  forall c s ls d al s', vstep_basic c s (BBrTable ls d) al = Some s' ->
+    (N.of_nat (length ls) <= MAX_SWITCH_SIZE)%N.
+Proof. exact switch_size_checked. Qed.
+Print Assumptions validate_switch_size.
+
+(** The generated constants are consistent with the interpreter's representation choices. *)
+Theorem limits_consistency :
+  (MAX_NUM_GLOBALS <= 2 ^ 16 /\ MAX_SWITCH_SIZE < 2 ^ 16 /\
+   MAX_INIT_MEMORY_SIZE <= MAX_NUM_PAGES /\ MAX_NUM_PAGES * PAGE_SIZE < 2 ^ 32 /\
+   MAX_INIT_MEMORY_SIZE * PAGE_SIZE <= u32_max /\ PAGE_SIZE = page_size /\
+   ALLOWED_LOCALS <= MAX_ALLOWED_STACK_HEIGHT /\ MAX_NUM_PAGES <= 65536)%N.
+Proof. exact limits_consistent. Qed.
+Print Assumptions limits_consistency.
+
+(** LEB128 readers: round trip of the canonical encodings, bounded consumption (decoding is a
+    total function reading at most 5 / 10 bytes), range of 32-bit values. *)
+Theorem leb_u32_roundtrip :
+  forall n rest, (n < 2 ^ 32)%N -> decode_u32 (uenc 5 n ++ rest) = Some (n, rest).
+Proof. exact leb_u32_roundtrip_thm. Qed.
+Print Assumptions leb_u32_roundtrip.
+Theorem leb_u64_roundtrip :
+  forall n rest, (n < 2 ^ 64)%N -> decode_u64 (uenc 10 n ++ rest) = Some (n, rest).
+Proof. exact leb_u64_roundtrip_thm. Qed.
+Print Assumptions leb_u64_roundtrip.
+Theorem leb_decode_u32_bounded :
+  forall bs v r, decode_u32 bs = Some (v, r) ->
+    (v < 2 ^ 32)%N /\ exists pre, bs = pre ++ r /\ (1 <= length pre <= 5)%nat.
+Proof. exact decode_u32_bounded. Qed.
+Print Assumptions leb_decode_u32_bounded.
+Theorem leb_decode_u64_bounded :
+  forall bs v r, decode_u64 bs = Some (v, r) -> exists pre, bs = pre ++ r /\ (1 <= length pre <= 10)%nat.
+Proof. exact decode_u64_bounded. Qed.
+Print Assumptions leb_decode_u64_bounded.
+Theorem leb_decode_s32_bounded :
+  forall bs v r, decode_s32 bs = Some (v, r) ->
+    (- 2 ^ 31 <= v < 2 ^ 31)%Z /\ exists pre, bs = pre ++ r /\ (1 <= length pre <= 5)%nat.
+Proof. exact decode_s32_bounded. Qed.
+Print Assumptions leb_decode_s32_bounded.
+Theorem leb_decode_s64_bounded :
+  forall bs v r, decode_s64 bs = Some (v, r) -> exists pre, bs = pre ++ r /\ (1 <= length pre <= 10)%nat.
+Proof. exact decode_s64_bounded. Qed.
+Print Assumptions leb_decode_s64_bounded.
+(** a sixth byte is never accepted for a 32-bit value *)
+Theorem leb_u32_too_long :
+  forall b1 b2 b3 b4 b5 r, (128 <= b1 -> 128 <= b2 -> 128 <= b3 -> 128 <= b4 -> 128 <= b5 ->
+    decode_u32 (b1 :: b2 :: b3 :: b4 :: b5 :: r) = None)%N.
+Proof. exact leb_u32_too_long_thm. Qed.
+Print Assumptions leb_u32_too_long.
